@@ -136,7 +136,8 @@ def cases(tier, seed):
     else:
         pools = {"props": over(ALPHA, 2) + over(small[:6], 3) + extras, "enum": over(ALPHA, 2) + over(small[:6], 3) + extras,
                  "params": over(ALPHA, 2) + extras, "schemas": over(ALPHA, 2) + extras, "opids": over(ALPHA, 2) + extras}
-    for ns in ("props", "params", "schemas", "enum", "opids"):
+    pools["opids-tagged"] = pools["opids"] if tier != "quick" else over(["a", "B", "_", "-"], 2) + ["getUser", "get_user", "GetUser", "get-user"]
+    for ns in ("props", "params", "schemas", "enum", "opids", "opids-tagged"):
         seen = set()
         pool = [s for s in pools[ns] if not (s in seen or seen.add(s))]
         for names in expand_plan({"ns": ns, "strings": pool}):
@@ -145,6 +146,7 @@ def cases(tier, seed):
 
 
 NS_DERIVE = {
+    "opids-tagged": lambda s: _derive("sanitize_method_name", s),
     "props": lambda s: _derive("sanitize_method_name", s),
     "params": lambda s: _derive("sanitize_method_name", s),
     "schemas": lambda s: _derive("sanitize_class_name", s),
@@ -161,7 +163,7 @@ def expand_plan(plan):
     if ns in ("params",):
         # a parameter name must be a usable HTTP token-ish name; keep printable ASCII without spaces for header safety
         strings = [s for s in strings if s and all(33 <= ord(c) < 127 for c in s)]
-    if ns == "opids":
+    if ns in ("opids", "opids-tagged"):
         strings = [s for s in strings if s.strip()]
     if ns == "schemas":
         strings = [s for s in strings if s and all(33 <= ord(c) < 127 for c in s) and "$" not in s]
@@ -443,15 +445,18 @@ def run_ns_tuple(ns, names):
             bad("dropped", "enum values differ from the spec's", f"spec {sorted(names)} emitted {vals}")
         return F, "checked"
 
-    if ns == "opids":
+    if ns in ("opids", "opids-tagged"):
         paths = {}
+        spell = ["Users", "users", "USERS", "users"]  # one client under several spellings of its tag
         for i, n in enumerate(names):
             paths[f"/r{i}"] = {"get": {"operationId": n, "responses": {"204": {"description": "d"}}}}
+            if ns == "opids-tagged":
+                paths[f"/r{i}"]["get"]["tags"] = [spell[i % 4]]
         doc = sandbox.base_doc(None, paths)
         files, err = _gen(doc)
         if err is not None:
             return F, "rejected:" + type(err).__name__
-        src = files.get("endpoints/default.py")
+        src = files.get("endpoints/default.py" if ns == "opids" else "endpoints/users.py")
         if src is None:
             bad("lost", "endpoint file missing", f"files={sorted(files)}")
             return F, "missing"
@@ -461,7 +466,7 @@ def run_ns_tuple(ns, names):
             return F, "syntax"
         meths = []
         for node in ast.walk(tree):
-            if isinstance(node, ast.ClassDef) and node.name == "DefaultClient":
+            if isinstance(node, ast.ClassDef) and node.name == ("DefaultClient" if ns == "opids" else "UsersClient"):
                 meths = [st for st in node.body if isinstance(st, ast.AsyncFunctionDef) and not st.name.startswith("__")]
         mn = [m.name for m in meths]
         if len(mn) != len(set(mn)):
